@@ -316,7 +316,13 @@ void connected_ops(LS &L, int n) {
         }
       } else set_ops(L);
       break;
-    case 7: if (gen(4) == 0) { int how = 1 + (int)gen(3); IoResult r = io_call(L, IO_SHUTDOWN, how); if (r.ok && how == 3 && !L.m.closed) L.m.connected = false; } break;
+    case 7: if (gen(4) == 0) { int how = 1 + (int)gen(3); IoResult r = io_call(L, IO_SHUTDOWN, how); if (r.ok && how == 3 && !L.m.closed) L.m.connected = false; }
+            else if (gen(3) == 0 && !L.m.closed && L.m.connected) {
+              // connecting again a socket that has its peer: whatever the call answers (done already, or "is connected"), the peer stays
+              io_call(L, IO_CONNECT, S->p_port ? S->p_port : 9);
+              probe("state.reconnect_attempt_on_connected_socket");
+            }
+            break;
     default: if (gen(4) == 0) failed_call(L); else set_ops(L);
     }
     check_getters(L, "operation on connected socket");
